@@ -591,7 +591,16 @@ impl Prop for C08 {
     }
     fn check(&self, c: &Case) -> CaseResult {
         let secs: u64 = std::env::var("VERIF_C08_WATCHDOG_S").ok().and_then(|v| v.parse().ok()).unwrap_or(10);
+        // a change that makes a whole class of inputs hang would cost (inputs x watchdog) of wall time: once 64 inputs have
+        // run into the watchdog the verdict is settled (each is reported), the remaining inputs are counted as skipped
+        static HANGS: std::sync::atomic::AtomicUsize = std::sync::atomic::AtomicUsize::new(0);
+        if HANGS.load(std::sync::atomic::Ordering::SeqCst) >= 64 {
+            return CaseResult::skip("not-run:64-inputs-already-ran-into-the-watchdog");
+        }
         let v = run_isolated(&c.text, &c.backend, Duration::from_secs(secs));
+        if matches!(v, Verdict::Hang) {
+            HANGS.fetch_add(1, std::sync::atomic::Ordering::SeqCst);
+        }
         let short = |t: &str| -> String {
             if t.len() > 600 {
                 let mut e = 300;
